@@ -421,3 +421,58 @@ Proof.
   - split; [intros [H _]; eauto|intros [H _]; auto].
   - split; [intros [_ H]; discriminate|intros [_ [md H]]; discriminate].
 Qed.
+
+(* ------------------------------------------------------------------ merge of the user configuration *)
+Definition merged_def (old : option compiler) (d : udef) : compiler :=
+  match old, d with
+  | None, _ => from_toml d
+  | Some _, UAlias _ => from_toml d
+  | Some c, UComp o r m p =>
+      {| c_alias := None;
+         c_opts := c_opts c ++ odflt o;
+         c_rules := c_rules c ++ odflt r;
+         c_modes := fold_left (fun d m => aset (m_name m) m d) (odflt m) (c_modes c);
+         c_passes := fold_left (fun d p => aset (p_name p) p d) (odflt p) (c_passes c) |}
+  end.
+
+Lemma merge_one_same t name d : aget name (merge_one t (name, d)) = Some (merged_def (aget name t) d).
+Proof.
+  unfold merge_one, merged_def. destruct (aget name t) as [c|]; [destruct d|]; apply aget_aset_same.
+Qed.
+Lemma merge_one_other t name nd : name <> fst nd -> aget name (merge_one t nd) = aget name t.
+Proof.
+  destruct nd as [k d]. cbn [fst]. intros Hne. unfold merge_one.
+  destruct (aget k t) as [c|]; [destruct d|]; apply aget_aset_other; exact Hne.
+Qed.
+Lemma merge_fold_other name : forall user t, ~ In name (map fst user) ->
+  aget name (fold_left merge_one user t) = aget name t.
+Proof.
+  induction user as [|nd user IH]; intros t Hn; [reflexivity|].
+  cbn [fold_left]. rewrite IH.
+  - apply merge_one_other. intros ->. apply Hn. left. reflexivity.
+  - intros H. apply Hn. right. exact H.
+Qed.
+Lemma merge_fold_same name d : forall user t, NoDup (map fst user) -> In (name, d) user ->
+  aget name (fold_left merge_one user t) = Some (merged_def (aget name t) d).
+Proof.
+  induction user as [|[k d'] user IH]; intros t Hnd Hin; [destruct Hin|].
+  cbn [map fst] in Hnd. inversion Hnd as [|? ? Hk Hnd']; subst.
+  cbn [fold_left]. destruct Hin as [Heq|Hin].
+  - injection Heq as -> ->. rewrite merge_fold_other by exact Hk. apply merge_one_same.
+  - rewrite (IH _ Hnd' Hin). rewrite merge_one_other; [reflexivity|].
+    cbn [fst]. intros ->. apply Hk. apply in_map_iff. exists (k, d). split; [reflexivity|exact Hin].
+Qed.
+
+(* C12_user_extends *)
+Theorem user_extends t user :
+  NoDup (map fst user) ->
+  (forallb (fun nd => udef_valid (snd nd)) user = false -> merge_user t user = t) /\
+  (forallb (fun nd => udef_valid (snd nd)) user = true ->
+     (forall name, ~ In name (map fst user) -> aget name (merge_user t user) = aget name t) /\
+     (forall name d, In (name, d) user ->
+        aget name (merge_user t user) = Some (merged_def (aget name t) d))).
+Proof.
+  intros Hnd. unfold merge_user. split; intros Hv; rewrite Hv; [reflexivity|]. split.
+  - intros name Hn. apply merge_fold_other. exact Hn.
+  - intros name d Hin. apply merge_fold_same; assumption.
+Qed.
